@@ -1542,6 +1542,33 @@ fn merge_scripts(
     result
 }
 
+/// Verification hook (add-only): exposes the private kerning reconciliation
+/// (`build_variable_kern_adjustments`) and the per-source value cascade
+/// (`lookup_kerning_value`) to /verif's harness. No behaviour change.
+#[cfg(fontc_verif)]
+pub mod verif_kern {
+    use super::*;
+
+    pub fn build_variable_kern_adjustments(
+        ir_groups: &KerningLocations,
+        kern_by_pos: &HashMap<NormalizedLocation, KerningInstance>,
+    ) -> (
+        BTreeMap<KernGroup, BTreeSet<GlyphName>>,
+        BTreeMap<ir::KernPair, KernAdjustments>,
+    ) {
+        super::build_variable_kern_adjustments(ir_groups, kern_by_pos)
+    }
+
+    pub fn lookup_kerning_value(
+        pair: &ir::KernPair,
+        kerning: &BTreeMap<ir::KernPair, OrderedFloat<f64>>,
+        side1_glyphs: &HashMap<&GlyphName, &KernGroup>,
+        side2_glyphs: &HashMap<&GlyphName, &KernGroup>,
+    ) -> OrderedFloat<f64> {
+        super::lookup_kerning_value(pair, kerning, side1_glyphs, side2_glyphs)
+    }
+}
+
 #[cfg(test)]
 mod tests {
     use write_fonts::read::FontRead;
